@@ -192,6 +192,41 @@ def inv_gen(g):
     return g.upper() if g.lower() == g else g.lower()
 
 
+# generating sets in every case pattern: words.invert_gen exchanges the two cases of a name, so an upper-case
+# name is a generator like any other and its inverse is the lower-case name (G: every spelling of an input class)
+FREE_SETS = [[], ["a"], ["A"], ["a", "b"], ["a", "B"], ["A", "B"], ["x", "Y"], ["ab"], ["AB"], ["ab", "C"], ["a", "A"],
+             ["A", "a"], ["aB"], ["a", "b", "c"], ["A", "b", "C"], ["gen", "H"]]
+
+
+def free_packs(gens):
+    return ["list", "tuple", "iter", "gen", "view"] + (["str"] if gens and all(len(g) == 1 for g in gens) else [])
+
+
+def rand_free_gens(rng):
+    if rng.random() < 0.25:
+        return list(rng.choice(FREE_SETS))
+    # multi-character names share no letter with the other names: the enumerators join labels into one string, and the
+    # language clauses need every such string to decode in one way only
+    bases = rng.sample(["a", "b", "c", "x", "y", "pq", "gen"], rng.choice([1, 2, 2, 3]))
+    style = rng.choice(["lower", "upper", "mixed", "mixed", "both"])
+    gens = []
+    for b in bases:
+        if style == "lower":
+            gens.append(b)
+        elif style == "upper":
+            gens.append(b.upper())
+        elif style == "both":
+            gens += [b, b.upper()] if rng.random() < 0.5 else [b.upper(), b]
+        else:
+            gens.append(rng.choice([b, b.upper(), b.upper(), b.capitalize() if len(b) > 1 and rng.random() < 0.3 else b.upper()]))
+    return gens
+
+
+def rand_free_init(rng):
+    gens = rand_free_gens(rng)
+    return {"route": "free", "gens": gens, "pack": rng.choice(free_packs(gens))}
+
+
 def build(init):
     """the real automaton and the reference for a construction spec"""
     r = init["route"]
@@ -323,6 +358,8 @@ def boundary_inits():
         {"route": "graph", "d": [[0, [["a", 0]]], [1, [["a", 0]]], [2, []]], "starts": [0]},         # 1, 2 unreachable
         {"route": "graph", "d": [[0, [["a", 1], ["b", 1], ["c", 1]]]], "starts": [0, 1]},            # parallel edges, two starts
         {"route": "free", "gens": [], "pack": "list"},
+        {"route": "free", "gens": ["A"], "pack": "list"},                                          # upper-case generator: inverse is 'a'
+        {"route": "free", "gens": ["a", "B"], "pack": "str"},
         {"route": "kbmag", "labels": ["a"], "initial": [1], "transitions": [[1]]},
         {"route": "kbmag", "labels": ["a", "b"], "initial": [1], "transitions": [[0, 0]]},
     ]
@@ -355,8 +392,7 @@ def rand_init(rng, vs=None, ls=None, alphabet="default"):
     if r < 0.82:
         return {"route": "empty", "starts": rand_starts(rng, vs)}
     if r < 0.9:
-        return {"route": "free", "gens": rng.sample(["a", "b", "c"], rng.choice([1, 2, 2, 3])),
-                "pack": rng.choice(["list", "tuple", "iter", "gen", "str", "view"])}
+        return rand_free_init(rng)
     n = rng.choice([1, 2, 3, 4])
     labels = ls
     return {"route": "kbmag", "labels": labels, "initial": [1],
@@ -367,7 +403,7 @@ def universe(init):
     if "ls" in init:
         return VS, list(init["ls"])
     if init["route"] == "free":
-        gens = list(init["gens"]) + [inv_gen(g) for g in init["gens"]]
+        gens = list(dict.fromkeys(list(init["gens"]) + [inv_gen(g) for g in init["gens"]]))     # a name may be listed in both cases
         return [""] + gens + ["z"], gens or ["a"]
     if init["route"] == "kbmag":
         n = len(init["transitions"])
